@@ -1,6 +1,7 @@
 package main
 
 import (
+	"os"
 	"crypto/aes"
 	"encoding/binary"
 	"fmt"
@@ -530,7 +531,10 @@ func runHistory(rng *rand.Rand, prof histProfile, w *Writer, suite string) {
 			}
 			h.rx(f, tag)
 		default:
-			port := uint8(1 + rng.Intn(223))
+			port := uint8([]int{1, 223, 1 + rng.Intn(223), 1 + rng.Intn(223)}[rng.Intn(4)]) // what the service lets an application queue
+			if os.Getenv("VERIF_EXPERIMENT_PORTS") != "" && rng.Intn(3) == 0 {
+				port = uint8([]int{0, 224, 255}[rng.Intn(3)])
+			}
 			n := 1 + rng.Intn(30)
 			if rng.Intn(8) == 0 {
 				n = []int{51, 52, 59, 60, 115, 123, 222, 230}[rng.Intn(8)]
